@@ -72,7 +72,7 @@ def stepOut (area : Float) (s : St Nat Nat Nat) (op : Op Nat) : St Nat Nat Nat Ã
         let r := step s.heap s.obj m ip
         match r.err, r.returned with
         | some e, _ => e
-        | none, some c => "ret:" ++ showFields (fields r.heap c)
+        | none, some c => "ret:" ++ showFields (fields r.heap c) ++ ";drv=" ++ showDerived r.heap c
         | none, none => "ok"
     | _ => "ok"
   (s', s!"{res}#{showObs s'.heap s'.obj area}#{showObs s'.heap s'.arg 0.0}")
